@@ -290,17 +290,22 @@ func runRandX(tr *vh.Trace, nrand int) {
 	layoutsOf := map[string][]string{"bolt": {"bolt_req", "bolt_resp"}, "boltv2": {"boltv2_req", "boltv2_resp"},
 		"dubbo": {"dubbo_req", "dubbo_resp"}, "dubbothrift": {"thrift_req", "thrift_resp"}, "tars": {"tars_req", "tars_resp"}}
 	const batch = 500
+	heavy := map[string]int{}
 	for _, codec := range codecNames {
 		for done := 0; done < nrand; done += batch {
 			cnt := map[string]int{"frame": 0, "more": 0, "error": 0, "panic": 0, "loop": 0}
 			over, moreCons, tailDiff, overAlloc, mpanic, mdiff := 0, 0, 0, 0, 0, 0
+			if heavy[codec] >= 2 {
+				tr.Emit(vh.Ev{"ev": "skip", "case": done, "why": "random strings for " + codec + " stopped: the decoder allocates from announced lengths"})
+				break
+			}
 			bad := []string{}
 			note := func(kind string, in []byte) {
 				if len(bad) < 4 {
 					bad = append(bad, kind+":"+clipHex(in, 64))
 				}
 			}
-			for k := 0; k < batch && done+k < nrand; k++ {
+			for k := 0; k < batch && done+k < nrand && heavy[codec] < 2; k++ {
 				var in []byte
 				switch rng.Intn(4) {
 				case 0: // pure noise behind a plausible first bytes
@@ -356,6 +361,9 @@ func runRandX(tr *vh.Trace, nrand int) {
 					if r.Out != "frame" && r.Alloc > uint64(1<<20+64*n) {
 						overAlloc++
 						note("alloc", in)
+						if r.Alloc >= allocCertain {
+							heavy[codec]++
+						}
 					}
 				}
 				if !sameRuns(runs) {
